@@ -244,7 +244,10 @@ def _oracle_with_watchdog(sub, case):
                 raise Fail("shrink-candidate-ran-long", "discarded") from None
             signal.alarm(CONFIRM_LIMIT_S)
             try:
-                return _count_library_steps(sub, case)
+                r = _count_library_steps(sub, case)
+                path = _save_timeout(sub, case)
+                log(f"[slow] {sub.name}: one evaluation ran longer than {CASE_LIMIT_S}s; the step count finished within its budget (no verdict); case saved to {path}")
+                return r
             except _StepBudget:
                 f = Fail("non-termination", f"one evaluation executed more than {STEP_BASE} + {STEP_PER_BYTE} x {_INPUT[0]} library line events ({_INPUT[0]} = input bytes and stream events handed to the library) without finishing")
                 f.no_shrink = True
